@@ -235,9 +235,9 @@ func c16Render(img draw.Image, rect image.Rectangle, op draw.Op, f func(d ivg.De
 
 func c16Sizes(tier string) [][2]int {
 	if tier == "thorough" {
-		return [][2]int{{1, 1}, {7, 7}, {64, 64}, {512, 512}, {513, 513}, {600, 600}, {40, 100}, {100, 40}, {511, 3}}
+		return [][2]int{{1, 1}, {2, 3}, {7, 7}, {64, 64}, {512, 512}, {513, 513}, {600, 600}, {40, 100}, {100, 40}, {511, 3}, {3, 514}, {1024, 16}}
 	}
-	return [][2]int{{1, 1}, {7, 7}, {64, 64}, {512, 512}, {513, 513}, {40, 100}}
+	return [][2]int{{1, 1}, {7, 7}, {64, 64}, {512, 512}, {513, 513}, {600, 600}, {40, 100}, {100, 40}, {511, 3}}
 }
 
 func c16OneProgs() []c16Prog {
@@ -255,7 +255,7 @@ func init() {
 	mc.Register(&mc.Check{
 		ID:    "C16",
 		Level: "exploration",
-		Rule: "engine P over (graphic x destination x rectangle x transformation): every one-path program over 10 shapes (L, l, H/V, Q+T, q+t, C+S, c+s, A, a, sub-paths via Y and y) x 4 fills (opaque, translucent, linear-pad gradient, radial-reflect gradient) x sizes {1,7,64,512,513,40x100} (thorough + {600,100x40,511x3}) x {RGBA, Alpha} x {Src, Over}, and every ordered pair of one-path programs (1600) at sizes 64 and 7, rendered with raster/vec. " +
+		Rule: "engine P over (graphic x destination x rectangle x transformation): every one-path program over 10 shapes (L, l, H/V, Q+T, q+t, C+S, c+s, A, a, sub-paths via Y and y) x 4 fills (opaque, translucent, linear-pad gradient, radial-reflect gradient) x sizes {1,7,64,512,513,600,40x100,100x40,511x3} (thorough + {2x3,3x514,1024x16}) x {RGBA, Alpha} x {Src, Over}, and every ordered pair of one-path programs (1600) at sizes 64 and 7, rendered with raster/vec. " +
 			"Relations, pixel buffers byte for byte: (a) rectangle at offset (7,9) inside a larger image with sentinel margin == image of its own, margin untouched; (b) viewBox, coordinates and radii x 2^k, gradient matrix linear part x 2^-k, k in {-3,-1,+2,+6} == original; (c) colours via palette index / register reference / blend == direct colours; (d) [P1,P2] with operator Src == P1 with Src then P2 with Over by a fresh Renderer. " +
 			"distinct = hash of the rendered pixels; non-trivial = render that produced at least one non-zero and one zero pixel",
 		Assumptions: []string{"golang.org/x/image/vector is a trusted dependency", "every float operation of the renderer commutes exactly with power-of-two scaling in the absence of overflow/underflow (the exponent set avoids both)"},
@@ -274,9 +274,7 @@ func init() {
 							c16Check(w, &c16Case{Prog: p, W: sz[0], H: sz[1], Alpha: alpha, Op: op, Rel: "a"})
 							c16Check(w, &c16Case{Prog: p, W: sz[0], H: sz[1], Alpha: alpha, Op: op, Rel: "c"})
 							for _, k := range []int{-3, -1, 2, 6} {
-								if big && !w.Thorough && k != 2 {
-									continue
-								}
+								_ = big
 								c16Check(w, &c16Case{Prog: p, W: sz[0], H: sz[1], Alpha: alpha, Op: op, Rel: "b", K: k})
 							}
 						}
@@ -290,14 +288,16 @@ func init() {
 					return
 				}
 				p := c16Prog{[]int{p1.Shapes[0], p2.Shapes[0]}, []int{p1.Fills[0], p2.Fills[0]}}
-				for _, sz := range [][2]int{{64, 64}, {7, 7}} {
+				szs := [][2]int{{64, 64}, {7, 7}}
+				if w.Thorough {
+					szs = append(szs, [2]int{40, 100}, [2]int{513, 9})
+				}
+				for _, sz := range szs {
 					c16Check(w, &c16Case{Prog: p, W: sz[0], H: sz[1], Op: 1, Rel: "d"})
 					c16Check(w, &c16Case{Prog: p, W: sz[0], H: sz[1], Op: 1, Rel: "a"})
 					c16Check(w, &c16Case{Prog: p, W: sz[0], H: sz[1], Op: 0, Rel: "b", K: 2})
-					if w.Thorough {
-						c16Check(w, &c16Case{Prog: p, W: sz[0], H: sz[1], Alpha: true, Op: 1, Rel: "d"})
-						c16Check(w, &c16Case{Prog: p, W: sz[0], H: sz[1], Op: 0, Rel: "c"})
-					}
+					c16Check(w, &c16Case{Prog: p, W: sz[0], H: sz[1], Alpha: true, Op: 1, Rel: "d"})
+					c16Check(w, &c16Case{Prog: p, W: sz[0], H: sz[1], Op: 0, Rel: "c"})
 				}
 			}
 		},
